@@ -8,6 +8,7 @@
        configuration with extension headers (generalises `expected` of Builder/Spec.v). *)
 From EP Require Import Base.Bytes Checksum.Spec Checksum.ProtoTypes Checksum.ProtoSpec.
 From EP Require Import Parse.Types Parse.View.
+From EP Require Parse.WireSpec.
 From EP Require ExtChain.Spec ExtChain.Model ExtChain.View.
 From EP Require Import Builder.Model Builder.Spec.
 Local Open Scope N_scope.
@@ -186,4 +187,55 @@ Definition chain_pre (c : cfg) : bool :=
   match c_net c with
   | NtIpv6 _ _ => negb (ExtChain.Spec.is_ext_number (tr_ip_number (c_transport c)))
   | _ => true
+  end.
+
+(* ------------------------------------------------------------------ expected view, extension headers included *)
+(* generalises `expected` of Builder/Spec.v (equal to it when no_exts holds:
+   ProofsPb.expected_x_no_exts): the IPv4 authentication header window, the IPv6
+   extension area (first announced number, total length, fragmenting fragment header) *)
+Definition is_fragmented_x (c : cfg) : bool :=
+  match c_net c with
+  | NtIpv4 h _ => ipv4_frag h
+  | NtIpv6 _ x => ExtChain.Model.is_fragmenting_payload x
+  | NtArp _ => false
+  end.
+
+Definition first_ext_number (c : cfg) : option N :=
+  match ext_layout c with
+  | (k, _) :: _ => Some (ExtChain.Spec.ip_number_of k)
+  | [] => None
+  end.
+
+Definition exp_net_x (c : cfg) (total : N) : option vnet :=
+  let pw := (off_transport c, total - off_transport c) in
+  let n := tr_ip_number (c_transport c) in
+  match c_net c with
+  | NtIpv4 h x =>
+      Some (VIpv4 (off_net c, Ipv4.ip4_header_len h)
+              (match ExtChain.Model.auth4 x with
+               | Some a => Some (off_exts c, ExtChain.Model.auth_header_len a)
+               | None => None
+               end)
+              (mkVIp n (ipv4_frag h) LsIpv4HeaderTotalLen pw))
+  | NtIpv6 _ x =>
+      let fr := ExtChain.Model.is_fragmenting_payload x in
+      Some (VIpv6 (off_net c, 40) (first_ext_number c) fr (off_exts c, ExtChain.Model.header_len x)
+              (mkVIp n fr LsIpv6HeaderPayloadLen pw))
+  | NtArp a => Some (VArp (off_net c, arp_packet_len a))
+  end.
+
+Definition expected_x (c : cfg) (plen : N) : vpacket :=
+  let total := final_size c plen in
+  mkVPacket (exp_link c total) (exp_exts c total) (exp_net_x c total)
+            (match c_net c with
+             | NtArp _ => None
+             | _ => if is_fragmented_x c then None else exp_transport c total
+             end).
+
+(* the entry point of the reference decoder that matches the link layer of the builder *)
+Definition wire_entry (c : cfg) (bs : bytes) : vres :=
+  match c_link c with
+  | LkEthernet2 _ _ => EP.Parse.WireSpec.wire_ethernet bs
+  | LkLinuxSll _ _ _ => EP.Parse.WireSpec.wire_linux_sll bs
+  | LkNone => EP.Parse.WireSpec.wire_from_ip bs
   end.
